@@ -155,6 +155,14 @@ def rule_nest(ctx):
         'elif not isinstance(element[0], str): raise ValueError' in src and \
         f'bndl[0] = self._get_logical_time({p.params[1]}, bndl[0])' in src
     ctx.ob('C07.nest', f'{p.fq}', ok, 'score times are processed with the same element classification as the encoder', p.node, p.module)
+    # the list handed in by the caller is copied before any element or time is replaced (a list sent twice is stamped twice
+    # relative to its own send instants, not relative to the previous result)
+    bp = p.params[2]
+    ss = [x for x in walk_local_ordered(p.node) if isinstance(x, ast.stmt)]
+    i_copy = next((i for i, x in enumerate(ss) if norm(x) in (f'{bp} = {bp}[:]', f'{bp} = list({bp})', f'{bp} = {bp}.copy()')), None)
+    writes = [i for i, x in enumerate(ss) if isinstance(x, ast.Assign) and any(isinstance(t, ast.Subscript) and norm(t.value) == bp for t in x.targets)]
+    ctx.ob('C07.nest', f'{p.fq}:copy-before-write', i_copy is not None and bool(writes) and all(i_copy < w for w in writes),
+           f'{bp}[...] is assigned at statements {writes} but the copy is at {i_copy}: the caller\'s list is rewritten', p.node, p.module)
 
 
 def rule_score(ctx):
@@ -208,8 +216,10 @@ def rule_score(ctx):
     ok = norm(body[0]) == 'if self._finished: return'
     ctx.ob('C07.score', f'{f.fq}:idempotent', ok, 'finishing twice does nothing', f.node, f.module)
     src = full(f.node)
-    ok = 'if _libsc3.main.current_tt is _libsc3.main.main_tt: tailtime += _libsc3.main.current_tt._seconds' in src
-    ctx.ob('C07.score', f'{f.fq}:tail-time', ok, 'outside routines the tail time is absolute (elapsed + tail)', f.node, f.module)
+    ok = 'if _libsc3.main.current_tt is _libsc3.main.main_tt: tailtime += max(_libsc3.main.current_tt._seconds, self._scoreq.peek(False)[0])' in src
+    ctx.ob('C07.score', f'{f.fq}:tail-time', ok,
+           'the tail is counted from the later of the final logical time and the latest queued bundle: a bundle sent with latency lies '
+           'after the last wake-up, and the marker must still be the last entry', f.node, f.module)
     d = repo.func('sc3.base._oscinterface:OscScore.duration')
     ctx.ob('C07.score', f'{d.fq}', 'return self._scoreq.peek(False)[0] * clk.SystemClock._OSC_TO_SECONDS' in full(d.node) or
            'return self._scoreq.peek(False)[0]' in full(d.node), 'duration is the latest queued time', d.node, d.module)
@@ -284,6 +294,11 @@ def run(ctx):
 
 
 MUTANTS = [
+    dict(rule='C07.nest', name='(fix reverted) score rewrites the nested bundles of the caller', file='sc3/base/_oscinterface.py',
+         edits=[('sc3/base/_oscinterface.py', "        bndl = bndl[:]  # Don't change the list of the caller.\n", ""),
+                ('sc3/base/_oscinterface.py', "                    f'OSC messages or bundles: {element}')\n        bndl[0] = self._get_logical_time", "                    f'OSC messages or bundles: {element}')\n        bndl = bndl[:]\n        bndl[0] = self._get_logical_time")]),
+    dict(rule='C07.score', name='(fix reverted) tail marker counted from the last wake-up only', file='sc3/base/_oscinterface.py',
+         old="            tailtime += max(\n                _libsc3.main.current_tt._seconds,\n                self._scoreq.peek(False)[0])", new="            tailtime += _libsc3.main.current_tt._seconds"),
     dict(rule='C07.tag', name='NRT negative latency clamped after adding the send instant (seed C07-c)', file='sc3/base/_oscinterface.py',
          old="        # Changes in this method must be synced with it, or refactored.\n        if time is None or time < 0.0:\n            time = 0.0\n        if _libsc3.main.current_tt is not _libsc3.main.main_tt:\n            time += send_time\n        return time",
          new="        if time is None:\n            time = 0.0\n        if _libsc3.main.current_tt is not _libsc3.main.main_tt:\n            time += send_time\n        return max(time, 0.0)"),
